@@ -21,7 +21,7 @@ def _reproduces(res, signature):
 
 def _op_removals(sc):
     ops = sc.get("ops")
-    if not isinstance(ops, list) or len(ops) <= 1:
+    if not isinstance(ops, list) or len(ops) <= 1 or sc.get("fixed_ops"):
         return
     n = len(ops)
     chunk = n // 2
